@@ -52,3 +52,15 @@ func groupsOf(table [][]string) []genericGroup {
 	}
 	return out
 }
+
+// referenceConfig: the reference tables are computed for linux/amd64.  The other build
+// configurations of the thorough tier exist for the rules that look at build-tagged files; comparing
+// them with tables of another platform would compare different programs (math.MaxInt alone differs),
+// so the reference families judge the reference configuration only and say so.
+func referenceConfig(c *Ctx) bool {
+	if c.Program.Config.GOOS == "linux" && c.Program.Config.GOARCH == "amd64" {
+		return true
+	}
+	c.PassTrivial(c.Program.Config.String(), "reference-configuration", "-", "reference tables are those of linux/amd64; not compared on this configuration")
+	return false
+}
